@@ -59,6 +59,24 @@ class UFL:
     def __init__(self, elem_ty, at, length): self.elem_ty = elem_ty; self.at = at; self.length = length
     def __repr__(self): return "UFL(%r,len=%s)" % (self.elem_ty, self.length)
 
+class UFDict:
+    """symbolic dict: has(k) / val(k) as functions over z3 key terms, explicit size. Values pass through a codec
+    (encode(st, python value) -> z3 term, decode(st, z3 term) -> python value) so that heap objects can be stored as snapshots."""
+    def __init__(self, key_ty, val_sort, has, val, size, encode=None, decode=None):
+        self.key_ty = key_ty; self.val_sort = val_sort; self.has = has; self.val = val; self.size = size
+        self.encode = encode or (lambda st, v: lift(v).z); self.decode = decode
+    def updated(self, kz, vz):
+        import z3 as _z
+        h, v = self.has, self.val
+        return UFDict(self.key_ty, self.val_sort, (lambda k, h=h, kz=kz: _z.Or(k == kz, h(k))), (lambda k, v=v, kz=kz, vz=vz: _z.If(k == kz, vz, v(k))),
+                      _z.If(h(kz), self.size, self.size + 1), self.encode, self.decode)
+    def __repr__(self): return "UFDict(%r)" % (self.key_ty,)
+
+def fresh_ufdict(key_ty, val_sort, hint="d", encode=None, decode=None):
+    n = "%s!%d" % (hint, next(_fresh))
+    hasf = z3.Function(n + "_has", sort_of(key_ty), z3.BoolSort()); valf = z3.Function(n + "_val", sort_of(key_ty), val_sort); size = z3.Int(n + "_size")
+    return UFDict(key_ty, val_sort, (lambda k: hasf(k)), (lambda k: valf(k)), size, encode, decode), [size >= 0]
+
 class Ref:
     """Reference to a heap object (concrete identity)."""
     _ids = itertools.count(1); classes = {}
